@@ -31,9 +31,15 @@ extern "C" void k_hull()
 {
   double xs[N], ys[N];
   VectorDouble x(N), y(N);
+#ifdef VF_XS
+  const double xfix[N] = {VF_XS};
+#endif
   for (int i = 0; i < N; i++)
   {
     xs[i] = vf_grid_double(VF_G);
+#ifdef VF_XS
+    xs[i] = xfix[i]; // abscissae fixed per kernel: every cross product is then linear in the symbolic ordinates
+#endif
     ys[i] = vf_grid_double(VF_G);
     x[i] = xs[i];
     y[i] = ys[i];
@@ -70,8 +76,10 @@ extern "C" void k_hull()
       }
       vf_assert_id(closed, "the ring is closed: last index == first index");
       vf_assert_id(distinct, "hull vertices are distinct points");
-      // every point on the same side (or on the line) of every edge of the ring
-      bool allLeft = true, allRight = true;
+      // every point on the same side (or on the line) of every edge of the ring; the side is the one of the third
+      // ring vertex with respect to the first edge (the kernel is explored path by path: no control flow on
+      // symbolic data in the oracle, one assertion per (edge, point))
+      bool ccw = cross(pickd(xs, h[0]), pickd(ys, h[0]), pickd(xs, h[1]), pickd(ys, h[1]), pickd(xs, h[2]), pickd(ys, h[2])) > 0.;
       for (int p = 0; p < N; p++)
         if (p + 1 < size)
         {
@@ -80,11 +88,9 @@ extern "C" void k_hull()
           for (int i = 0; i < N; i++)
           {
             double c = cross(ax, ay, bx, by, xs[i], ys[i]);
-            if (c < 0.) allLeft = false;
-            if (c > 0.) allRight = false;
+            vf_assert_id(ccw ? (c >= 0.) : (c <= 0.), "every input point is inside or on the hull polygon (same side of every hull edge)");
           }
         }
-      vf_assert_id(allLeft || allRight, "every input point is inside or on the hull polygon (same side of every hull edge)");
     }
   }
   vf_witness();
